@@ -178,6 +178,11 @@ impl RtpsWriterProxy {
 
     // Iterate over all SequenceNumbers (indices) in the advertised range.
     for s in relevant_interval {
+      // An ACKNACK can request at most 256 sequence numbers. Do not collect more than
+      // that: hb_last_sn comes from the wire and may be arbitrarily far away.
+      if missing_seqnums.len() >= 256 {
+        break;
+      }
       match known_head {
         None => missing_seqnums.push(s), // no known changes left => s is missing
         Some(known_sn) => {
